@@ -59,6 +59,7 @@ type Struct struct {
 	Writer  int
 	Anonymous bool
 	Boom    bool // InitDefault panics while universe.Boom is set
+	Local   bool // declared inside a function of its own, together with a local `type Label string`
 }
 
 var structs []*Struct
@@ -1486,6 +1487,18 @@ func groupAnon() {
 		h.add("M7", mapOf(prim("int16"), blob()), 9, "default")
 		h.add("P", ptr(blob()), 10, "optional")
 	}
+	// two struct types of the same name, with maps over a defined string type of the same name, that are
+	// different types (declared in two functions): anything keyed by a type's printed name confuses them
+	for k := 0; k < 2; k++ {
+		lt := newStruct("anon")
+		lt.Name = "SameT"
+		lt.Local = true
+		label := func() *Ty { return named("string", "Label") }
+		lt.add("M1", mapOf(label(), prim("int32")), 1, "default")
+		lt.add("M2", mapOf(prim("int32"), label()), 2, "default")
+		lt.add("L", list(label()), 3, "default")
+		lt.add("K", label(), 4, "default")
+	}
 	// identifiers with underscores (what thriftgo emits for foo_bar.thrift): qualifiers and type names
 	// (R4 made `_` a separator)
 	h = newStruct("anon")
@@ -1526,6 +1539,17 @@ func emit(outDir string) {
 	g.WriteString("type E1 int64\ntype E2 int64\ntype E3 int64\ntype NB uint8\ntype C1 int\ntype E_U int64\ntype AttrsT map[string]string\ntype IDsT []int64\ntype BlobT []byte\n\n")
 	var u strings.Builder
 	for _, s := range structs {
+		if s.Local {
+			// two types of the same name and shape that are not the same type (U1 keyed a pool by Type.String())
+			fmt.Fprintf(&u, "struct %d %s 0\n", s.Sid, s.Name)
+			fmt.Fprintf(&g, "func localType%d() reflect.Type {\n\ttype Label string\n\ttype %s struct {\n", s.Sid, s.Name)
+			for _, f := range s.Fields {
+				fmt.Fprintf(&g, "\t\t%s %s `%s`\n", f.Name, f.Ty.GoExpr(), f.Tag)
+				fmt.Fprintf(&u, "field %d %s 1 0 %s %s -\n", s.Sid, f.Name, f.Ty.Proto(), hex.EncodeToString([]byte(f.Tag)))
+			}
+			fmt.Fprintf(&g, "\t}\n\treturn reflect.TypeOf(%s{})\n}\n\n", s.Name)
+			continue
+		}
 		if s.Anonymous {
 			// no declaration: the type is written out wherever it is used
 			fmt.Fprintf(&u, "struct %d - 0\n", s.Sid)
@@ -1617,11 +1641,14 @@ func emit(outDir string) {
 			}
 		}
 		sort.Slice(fs, func(i, j int) bool { return fs[i].id < fs[j].id })
-		tyExpr := s.Name
+		tyExpr := "reflect.TypeOf(" + s.Name + "{})"
 		if s.Anonymous {
-			tyExpr = s.literal()
+			tyExpr = "reflect.TypeOf(" + s.literal() + "{})"
 		}
-		fmt.Fprintf(&g, "\t\t{Sid: %d, Name: %q, Type: reflect.TypeOf(%s{}), Accept: %v, Holder: %v, Group: %q, Writer: %d, Boom: %v, Fields: []UField{",
+		if s.Local {
+			tyExpr = fmt.Sprintf("localType%d()", s.Sid)
+		}
+		fmt.Fprintf(&g, "\t\t{Sid: %d, Name: %q, Type: %s, Accept: %v, Holder: %v, Group: %q, Writer: %d, Boom: %v, Fields: []UField{",
 			s.Sid, s.Name, tyExpr, s.Accept, holder, s.Group, s.Writer, s.Boom)
 		for _, f := range fs {
 			fmt.Fprintf(&g, "{%q, %d, %d}, ", f.name, f.id, f.idx)
